@@ -27,6 +27,22 @@ DETECT = {  # (incoming dir, patch number) -> (detected, by which check / assert
  ('C08-b', 2): (False, 'not detected', 'jiff Span::seconds panics for durations between 2e4 and 2.9e11 years in DateTime +/- Time: no C19/C08 kernel drives the date-time opcodes (not applicable in this framework so far)'),
  ('C20-b', 1): (True, 'C20 h_c20_writer: no-user-controlled-tag-open (colour state blue)', ''),
  ('C20-b', 2): (True, 'C20 h_c20_format: no-user-controlled-tag-close (FormatType Keyword / Decorator / Unit)', ''),
+ ('C15-a', 1): (True, 'C15 h_c15_string: echoed-string-reads-back-as-the-same-string (backslash directly before a brace)', ''),
+ ('C15-a', 2): (False, 'not detected', 'parenthesisation of factorial operands in the expression printer ((3!)! echoed as 3!!): program structure, outside the string-literal kernel that C15 claims'),
+ ('C18-b', 1): (True, 'C18 h_c18_step: operated-list-holds-expected-elements (sole owner, fully consumed view, push)', ''),
+ ('C18-b', 2): (True, 'C18 h_c18_step: head-is-first-element (sole owner with view start > 0)', ''),
+ ('C10-b', 1): (True, 'C10 h_c10_parse: input-in-grammar-is-accepted (+ - x)', ''),
+ ('C10-b', 2): (False, 'not detected', 'double rounding of hex/octal/binary literals above 2^53: numeric values of literals are outside the C10 kernels (every Number token is the literal 1; integer-with-base tokens are not in the alphabet)'),
+ ('C03-b', 1): (True, 'C04 h_c04_convert: conversion-factor-agrees-with-unit-definitions on the compound pair kB/Mbit -> MB/kbit', 'missed by C03 and by the first C04 plan (single units only); caught after compound units (products / quotients / powers with metric and binary prefixes) were added to the C04 plan'),
+ ('C03-b', 2): (True, 'C03 h_c03_arith: arithmetic-on-compatible-units-succeeds / zero shortcuts (subnormal operand treated as zero)', ''),
+ ('C04-b', 1): (True, 'C04 h_c04_convert: magnitude-grows/shrinks-when-converting (subnormal magnitude returned unscaled)', 'missed at first; caught after the bit-exact ordering claim |conv(a)| > |a| (factor >= 4) / < |a| (factor <= 1/4) was added — the solver proves it for all doubles on the unchanged tree'),
+ ('C04-b', 2): (True, 'C04 h_c04_convert: conversion-factor-agrees-with-unit-definitions on s/KiB -> s/B and KiB^2 -> B^2', 'missed at first (single units only); caught after compound units were added to the C04 plan'),
+ ('C12-b', 1): (True, 'C12 h_c12_api: add-same-quantity / sub-negated-quantity / add-same-unit (subnormal operands)', ''),
+ ('C12-b', 2): (True, 'C12 h_c12_api: add-same-unit (inf / NaN / subnormal right operand)', ''),
+ ('C09-b', 1): (True, 'C09 h_c09_prog: panic in templates builtin-via-function-value / builtin-via-fn-parameter', 'missed by the first template list; caught after templates calling an asymmetric builtin (cons, cons_end) through a function value were added'),
+ ('C09-b', 2): (True, 'C09 h_c09_prog: value-equals-source-semantics (template struct-literal-direct-access)', 'missed by the first template list; caught after the template was added'),
+ ('C21-b', 1): (True, 'C21 h_c21_eq2: assert_eq2-fails-only-if-different-in-rhs-unit (both operands +inf)', ''),
+ ('C21-b', 2): (True, 'C21 h_c21_eq3: assert_eq3-succeeds-only-if-within-eps (equal operands, NaN / negative eps)', ''),
 }
 props = {json.loads(l)['id']: json.loads(l) for l in open('/verif/properties.jsonl')}
 count = {}
